@@ -8,6 +8,7 @@ import (
 	"math/rand"
 	"os"
 	"os/exec"
+	"sidever/internal/pipe"
 	"strings"
 	"sync"
 	"sync/atomic"
@@ -139,9 +140,94 @@ func validateWriterTracesCfg(c *ev.Ctx, ndjson string, cfg string) (*tlc.Result,
 }
 
 // C16: traces of real writer runs (truly concurrent and schedule-driven) must be behaviours of WriterProp.
+// writerWithRealHandler: the batch writer over the REAL operation handler and a CAS in which one write of a round fails
+// (the first, second, ... fifth file in turn): Pipeline.tla behaviours with FlushFails steps on the wired pipeline.  A
+// round in which a write failed anchors nothing and leaves the queue as it was; the next successful round anchors the
+// batch - the trace is validated against Pipeline!Flush.
+func writerWithRealHandler(c *ev.Ctx) {
+	n := 40
+	if c.Tier == "thorough" {
+		n = 600
+	}
+	failing := func(h []pipe.Step) bool {
+		for _, s := range h {
+			if s.A == "FlushFails" {
+				return true
+			}
+		}
+		return false
+	}
+	for _, unpub := range []bool{true, false} {
+		cfg := "MC_Pipeline_gen_unpub.cfg"
+		if !unpub {
+			cfg = "MC_Pipeline_gen_nounpub.cfg"
+		}
+		// half of the selection: the failing round cuts a batch that holds an update, recover or deactivate (create
+		// anchored - and observed - first), so that every kind of file is among the writes that may fail
+		rich := func(h []pipe.Step) bool {
+			created, anchored, observed, queued := map[int]bool{}, map[int]bool{}, map[int]bool{}, false
+			for _, s := range h {
+				switch {
+				case s.A == "Submit" && s.K == "C":
+					created[s.D] = true
+				case s.A == "Flush":
+					for d := range created {
+						anchored[d] = true
+					}
+					queued = false
+				case s.A == "Observe" && s.F == "none":
+					for d := range anchored {
+						observed[d] = true
+					}
+				case s.A == "Submit" && (s.K == "U" || s.K == "R" || s.K == "D") && observed[s.D]:
+					queued = true
+				case s.A == "FlushFails" && queued:
+					return true
+				}
+			}
+			return false
+		}
+		var sel, plain [][]pipe.Step
+		for _, h := range pipelineBehaviours(c, cfg, n*8, c.Seed+1616) {
+			switch {
+			case !failing(h):
+			case rich(h) && len(sel) < n/2:
+				sel = append(sel, h)
+			case len(plain) < n:
+				plain = append(plain, h)
+			}
+		}
+		// ... and scripted ones, each repeated so that the failing position cycles over every file of the round: an
+		// update alone (4 files), update + recover (5), a deactivate alone (2), update + deactivate (5)
+		sub := func(d int, k string) pipe.Step { return pipe.Step{A: "Submit", D: d, K: k} }
+		fl, ff, ob, ra := pipe.Step{A: "Flush"}, pipe.Step{A: "FlushFails"}, pipe.Step{A: "Observe", F: "none"}, pipe.Step{A: "ResolveAll"}
+		for _, script := range [][]pipe.Step{
+			{sub(1, "C"), fl, ob, sub(1, "U"), ff, ra, fl, ob, ra},
+			{sub(1, "C"), sub(2, "C"), fl, ob, sub(1, "U"), sub(2, "R"), ff, ra, fl, ob, ra},
+			{sub(1, "C"), fl, ob, sub(1, "D"), ff, ra, fl, ob, ra},
+			{sub(1, "C"), sub(2, "C"), fl, ob, sub(1, "U"), sub(2, "D"), ff, ra, fl, ob, ra},
+		} {
+			for rep := 0; rep < 5; rep++ {
+				sel = append(sel, script)
+			}
+		}
+		richN := len(sel)
+		for _, h := range plain {
+			if len(sel) < n+20 {
+				sel = append(sel, h)
+			}
+		}
+		c.Cov.Extra[fmt.Sprintf("of_which_the_failing_round_holds_a_non_create_operation_unpub_%v", unpub)] = int64(richN)
+		before := c.Cov.DistinctNontrivial
+		runPipelineBehaviours(c, unpub, sel, failing, "writer-with-real-handler-trace-rejected")
+		c.Cov.Extra[fmt.Sprintf("pipeline_behaviours_with_a_failing_cas_write_unpub_%v", unpub)] = c.Cov.DistinctNontrivial - before
+	}
+}
+
 func C16(c *ev.Ctx) {
 	c16Design(c)
 	c16Driven(c)
+	writerWithRealHandler(c)
 	runs := 40
 	if c.Tier == "thorough" {
 		runs = 1500
